@@ -278,7 +278,12 @@ class Parser:
             self.eat(")")
             return e
         if re.match(r"\d", t):
-            return ("lit", int(re.sub(r"[uUlL]+$", "", t)))
+            body = re.sub(r"[uUlL]+$", "", t)
+            if re.match(r"^0[0-7]+$", body):
+                return ("lit", int(body, 8))          # C reads a leading 0 as octal
+            if re.match(r"^0\d+$", body):
+                raise GuardError(f"malformed octal literal {t}")
+            return ("lit", int(body))
         if re.match(r"[A-Za-z_]\w*$", t):
             if self.peek() == "->":
                 self.eat()
@@ -318,6 +323,65 @@ def subst(e, env):
     return e
 
 
+REPO_FOR_STRUCTS = [None]     # set by generate(): where the headers with the typedefs / structs are
+
+
+def function_region(txt, fname):
+    """the text of the (single) definition of fname, from its name to the closing brace"""
+    found = []
+    for m in re.finditer(r"\b" + re.escape(fname) + r"\s*\(", txt):
+        op = m.end() - 1
+        cp = match_close(txt, op, "(", ")")
+        rest = txt[cp + 1:]
+        k = len(rest) - len(rest.lstrip())
+        if k < len(rest) and rest[k] == "{":
+            before = txt[:m.start()].rstrip()
+            if not before or not re.search(r"[\w*]$", before) or re.search(r"\b(return|else)$", before):
+                continue
+            cb = match_close(txt, cp + 1 + k, "{", "}")
+            found.append(txt[m.start():cb + 1])
+    if len(found) > 1:
+        raise GuardError(f"{fname} is defined {len(found)} times in the file (conditional compilation?)")
+    if not found:
+        raise GuardError(f"definition of {fname} not found")
+    return found[0]
+
+
+def check_no_preprocessor(region, txt, what, macros=True):
+    """no directive inside the region, no macro of the file used in it"""
+    d = re.search(r"^[ \t]*#[ \t]*\w+", region, re.M)
+    if d:
+        raise GuardError(f"preprocessor directive `{d.group(0).strip()}` inside {what}")
+    if not macros:
+        return
+    for name in re.findall(r"^[ \t]*#[ \t]*define[ \t]+(\w+)", txt, re.M):
+        if re.search(r"\b" + re.escape(name) + r"\b", region):
+            raise GuardError(f"the macro `{name}` of the file is used inside {what}")
+
+
+def struct_body(txt, tyname):
+    """the body of the struct a container parameter of type `tyname *` points to"""
+    import gen_funcs
+    repo = REPO_FOR_STRUCTS[0]
+    tag = None
+    m = re.match(r"^struct\s+(\w+)$", tyname)
+    if m:
+        tag = m.group(1)
+    elif repo is not None:
+        tag = gen_funcs.typedefs_of(repo, None).get(tyname)
+    if tag is None:
+        raise GuardError(f"no struct known for the type {tyname}")
+    t = gen_funcs.struct_text(repo, txt, tag) if repo is not None else txt
+    m = re.search(r"\bstruct\s+" + re.escape(tag) + r"\s*\{", t)
+    if not m:
+        raise GuardError(f"struct {tag} not found")
+    cb = match_close(t, m.end() - 1, "{", "}")
+    body = t[m.end():cb]
+    check_no_preprocessor(body, t, f"struct {tag}")
+    check_no_preprocessor(body, txt, f"struct {tag}")
+    return tag, body
+
+
 class Ctx:
     """names of one function: parameters, which are containers, which fields are size_t"""
 
@@ -347,8 +411,11 @@ class Ctx:
         if e[0] == "field":
             if e[1] not in self.containers:
                 raise GuardError(f"{e[1]}->{e[2]}: {e[1]} is not a container parameter")
-            if not re.search(r"\bsize_t\s+" + re.escape(e[2]) + r"\s*;", self.src):
-                raise GuardError(f"field {e[2]} is not declared `size_t {e[2]};` in this file")
+            ty = " ".join(w for w in self.ptype(e[1])[0].replace("*", " ").split() if w != "const")
+            tag, body = struct_body(self.src, ty)
+            decls = [d for d in body.split(";") if "(" not in d]      # data fields, not function pointers
+            if not any(re.match(r"^\s*(?:const\s+)?size_t\b[^;]*\b" + re.escape(e[2]) + r"\b", d) for d in decls):
+                raise GuardError(f"field {e[2]} is not declared `size_t` in struct {tag}")
             k = self.containers.index(e[1])
             return lean_ident(e[2] + ("" if k == 0 else str(k + 1))), (2, k, e[2])
         raise GuardError("not a leaf")
@@ -442,6 +509,8 @@ RET = re.compile(r"^return\s+(.*?)\s*;$", re.S)
 def extract(txt, fname, which=0, depth=0):
     """-> dict(ctx, guard=AST, guard_src, status, bypass=[(AST, src)], via=str|None)"""
     ptxt, body = find_function(txt, fname)
+    check_no_preprocessor(function_region(txt, fname), txt, fname, macros=False)
+    check_no_preprocessor(ptxt, txt, f"the parameter list of {fname}")
     ctx = Ctx(fname, parse_params(ptxt), txt)
     bypass, nerr = [], 0
     pending = None         # (status variable, helper name, [argument texts]) after `s = helper(...)`
@@ -557,6 +626,8 @@ def one_entry(repo, name, f, opts, status):
             raise GuardError(f"{f} does not exist")
         txt = strip_comments(p.read_text(errors="replace"))
         g = extract(txt, name, opts.get("which", 0))
+        # the translated text (the guard and what stands in front of it) must not use a macro of the file
+        check_no_preprocessor(" ".join([g["guard_src"]] + [b for _, b in g["bypass"]]), txt, f"the guard of {name}")
         ctx = g["ctx"]
         gargs = arglist([g["guard"]], ctx)
         gtxt = emit_bool(g["guard"], ctx)
@@ -576,6 +647,14 @@ def one_entry(repo, name, f, opts, status):
             out += [f"/-- `{name}`: the call is turned away by the guard (no earlier return taken, guard true) -/",
                     f"def {name}_rejects{sig(rargs)} : Bool := !({name}_bypass {' '.join(bargs)}) && {name}_guard {' '.join(gargs)}".replace("  ", " ")]
         out += [f"/-- `{name}`: the guard returns `{g['status']}` -/", f"def {name}_guard_status : Nat := {st}"]
+        # every `return CC_ERR_...;` of the function (and of the helper whose status it hands on): an added or
+        # removed rejection changes this number
+        nret = len(re.findall(r"\breturn\s+CC_ERR_\w+\s*;", function_region(txt, name)))
+        if g["via"]:
+            nret += len(re.findall(r"\breturn\s+CC_ERR_\w+\s*;", function_region(txt, g["via"].split("(")[0])))
+        out += [f"/-- `{name}`: the number of `return CC_ERR_…;` statements in its text"
+                + (" and in the helper's" if g["via"] else "") + " -/",
+                f"def {name}_error_returns : Nat := {nret}"]
         lines = out
     except GuardError as ex:
         problems.append(f"gen_guards: {name} ({f}): {ex}")
@@ -584,12 +663,14 @@ def one_entry(repo, name, f, opts, status):
     if problems:
         why = problems[0].replace("-/", "- /").replace("\n", " ")
         lines = [f"/-- NOT TRANSLATED — {why} -/", f"def {name}_guard : Bool := false",
-                 f"/-- NOT TRANSLATED -/", f"def {name}_guard_status : Nat := 0"]
+                 f"/-- NOT TRANSLATED -/", f"def {name}_guard_status : Nat := 0",
+                 f"/-- NOT TRANSLATED -/", f"def {name}_error_returns : Nat := 0"]
     return lines, problems
 
 
 def generate(repo, constants_path=None):
     repo = str(repo)
+    REPO_FOR_STRUCTS[0] = repo
     status = status_values(repo, constants_path or "/nonexistent")
     lines, problems = [HEADER.rstrip("\n")], []
     for name, f, opts in TABLE:
